@@ -179,7 +179,11 @@ def _make_error(kind: str, path: str, seq: int) -> BaseException:
 
 def _make_os_error(kind: str, path: str, seq: int) -> OSError:
     code = _ERRNOS[kind.split("_")[0]]
-    e = InjectedOSError(code, os.strerror(code) + " [injected]", path)
+    if kind.endswith(("_write", "_write_short", "_close", "_flush")):
+        # as from the real write(2)/close(2): the error of an operation on an open descriptor names no file
+        e = InjectedOSError(code, os.strerror(code) + " [injected]")
+    else:
+        e = InjectedOSError(code, os.strerror(code) + " [injected]", path)
     e._vsim_injected = seq  # type: ignore[attr-defined]
     STATE["injected_errors"].append(e)
     return e
@@ -702,6 +706,27 @@ def _run_layer_e() -> dict:
 
     sys.argv = ["safe-ds-stubgen", *JOB["argv"]]
     out: dict = {}
+    prelude = JOB.get("prelude_files")
+    if prelude:
+        # an earlier analysis of the same paths in this very process, while the files held other contents (seams off:
+        # it is no part of the judged run); afterwards the files are restored and the output directory is removed
+        import shutil
+
+        saved = {}
+        for path, text in prelude.items():
+            with _real_open(path, encoding="utf-8", newline="") as f:
+                saved[path] = f.read()
+            with _real_open(path, "w", encoding="utf-8", newline="") as f:
+                f.write(text)
+        try:
+            tool_main()
+            out["prelude_outcome"] = "completed"
+        except BaseException as e:  # noqa: BLE001
+            out["prelude_outcome"] = f"{type(e).__name__}: {e}"[:200]
+        for path, text in saved.items():
+            with _real_open(path, "w", encoding="utf-8", newline="") as f:
+                f.write(text)
+        shutil.rmtree(JOB["out_dir"], ignore_errors=True)
     STATE["active"] = True
     try:
         tool_main()
